@@ -94,7 +94,7 @@ class Scenario:
 
 def model_flags(t1_summary):
     g = (t1_summary or {}).get("gen", {})
-    return bool(g.get("detailed_rechecks_errors", False)), bool(g.get("fast_kw_last", False))
+    return bool(g.get("detailed_rechecks_errors", False)), bool(g.get("fast_kw_last", False)), bool(g.get("tuple_by_kw", False))
 
 
 def unsafe_ids(intern):
@@ -109,7 +109,7 @@ def run_tpl_model(v: Verdict, name, cases_text, flags, label, intern=None):
         chunk = cases_text[k:k + shard]
         src = ("From V.Model Require Import Base Templates TdTemplates TplLane.\n"
                "Definition the_cases : list tcase := [\n" + ";\n".join(chunk) + "\n].\n"
-               f"Eval vm_compute in (bad_tcases {unsafe_ids(intern)} {T.c_bool(flags[0])} {T.c_bool(flags[1])} 0 the_cases).\n")
+               f"Eval vm_compute in (bad_tcases {unsafe_ids(intern)} {T.c_bool(flags[0])} {T.c_bool(flags[1])} {T.c_bool(flags[2])} 0 the_cases).\n")
         rc, out = run_cases_file(f"{name}_{k}", src)
         vals = parse_coq_value(out)
         if rc != 0 or not vals:
@@ -122,7 +122,7 @@ def run_tpl_model(v: Verdict, name, cases_text, flags, label, intern=None):
 
 def model_outcome(case_text, flags, intern):
     src = ("From V.Model Require Import Base Templates TdTemplates TplLane.\n"
-           f"Eval vm_compute in (tcase_model {unsafe_ids(intern)} {T.c_bool(flags[0])} {T.c_bool(flags[1])} ({case_text})).\n")
+           f"Eval vm_compute in (tcase_model {unsafe_ids(intern)} {T.c_bool(flags[0])} {T.c_bool(flags[1])} {T.c_bool(flags[2])} ({case_text})).\n")
     rc, out = run_cases_file("tpl_one", src)
     vals = parse_coq_value(out)
     return vals[-1] if vals else out[-300:]
